@@ -54,7 +54,7 @@ def bounds(tier):
 
 
 def jobs(tier, seed):
-    out = [("momentum", 2), ("step",), ("step_lemmas",), ("monotone",), ("weight", 3), ("weight", 4), ("weight", 5), ("flat", 3), ("flat", 4), ("flat", 5), ("count",), ("angles",)]
+    out = [("momentum", 2), ("step",), ("step_lemmas",), ("monotone",), ("weight", 3), ("weight", 4), ("weight", 5), ("flat", 3), ("flat", 4), ("flat", 5), ("count",), ("angles",), ("concrete", 2), ("concrete", 3), ("cascade", "depth1"), ("cascade", "depth2"), ("cascade", "depth2b"), ("cascade", "siblings"), ("cascade", "depth3"), ("cascade", "mixed")]
     if tier == "thorough":
         out += [("weight", 6), ("flat", 6)]
     return out
@@ -121,6 +121,165 @@ def job_momentum(ss, n):
     for i in range(4):
         ss.prove("ps.momentum_sum[n=%d,%d]" % (n, i), F, far(tot[i].t, tgt[i], 0), key="ps.momentum_sum", payload=pay, timeout=60, describe="sum of momenta = (M, 0, 0, 0)")
     ss.mutant("ps.mutant[n=%d]" % n, F, far(tot[0].t, T.add(m0.t, T.ONE), 0))
+
+
+def _flat_leaves(tree):
+    if isinstance(tree, (list, tuple)):
+        out = []
+        for t in tree:
+            out += _flat_leaves(t)
+        return out
+    return [tree]
+
+
+from .C10_real import CASCADES  # noqa: E402  (shared with the replay, which runs without the solver stack)
+
+
+def job_cascade(ss, shape):
+    """ChainGenerator for nested cascades: the momentum returned for a final particle is the momentum its own
+    sub-generator produced (rest frame of its mother system), boosted successively by the momentum of every ancestor
+    system *as that ancestor was produced in its own mother's rest frame*, innermost first.  Sub-generators are stubs
+    returning symbolic four-vectors (PhaseSpaceGenerator is decided by the other jobs) and the boost kernel is an
+    uninterpreted recorder (decided under C11), so the obligation is about the order and the frames of the boosts."""
+    import tf_pwa.phasespace as phsp
+
+    M, mi = CASCADES[shape]
+
+    def Rv(a, b):
+        at = [term_of(e) for e in a.arr.reshape(-1)]
+        bt = [term_of(e) for e in b.arr.reshape(-1)]
+        return tensor_of([[SymReal(T.uf("R%d" % i, *at, *bt)) for i in range(4)]])
+
+    def Neg(a):
+        at = [term_of(e) for e in a.arr.reshape(-1)]
+        return tensor_of([[SymReal(T.uf("N%d" % i, *at)) for i in range(4)]])
+
+    class LVProxy:
+        def __getattr__(self, k):
+            return getattr(LV, k)
+
+        rest_vector = staticmethod(Rv)
+        neg = staticmethod(Neg)
+
+    LV = phsp.LorentzVector
+    phsp.LorentzVector = LVProxy()
+    old_gen = phsp.PhaseSpaceGenerator.generate
+    raw_by_gen = {}
+    counter = [0]
+
+    def fake_generate(self, N, *a, **k):
+        counter[0] += 1
+        out = [tensor_of([[S.real("g%d_%d_%d" % (counter[0], j, c)) for c in range(4)]]) for j in range(len(self.m_mass))]
+        raw_by_gen[id(self)] = out
+        return out
+
+    phsp.PhaseSpaceGenerator.generate = fake_generate
+    try:
+        gen = phsp.ChainGenerator(M, mi)
+        out = gen.generate(1)
+    finally:
+        phsp.LorentzVector = LV
+        phsp.PhaseSpaceGenerator.generate = old_gen
+
+    def node(path):
+        t = (M, mi)
+        for i in path:
+            t = t[1][i]
+        return t
+
+    # generators serve the nodes they are registered for
+    ok = len(gen.idxs) == len(gen.gen) == len(raw_by_gen)
+    raw = {}
+    for idx, g in zip(gen.idxs, gen.gen):
+        n = node(idx)
+        exp_m = [x[0] if isinstance(x, (tuple, list)) else x for x in n[1]]
+        ok = ok and float(g.m0) == float(n[0]) and [float(x) for x in g.m_mass] == [float(x) for x in exp_m]
+        raw[tuple(idx)] = raw_by_gen.get(id(g))
+    pay0 = dict(kind="cascade", shape=shape, model={})
+    ss.concrete("ps.cascade.generators[%s]" % shape, bool(ok), key="ps.cascade.generators", payload=pay0, describe="one sub-generator per decaying system, with that system's mass and its daughters' (fixed) masses")
+    if not ok:
+        return
+
+    def expected(path):
+        """path = index path of a final particle in the structure"""
+        v = raw[path[:-1]][path[-1]]
+        for k in range(len(path) - 1, 0, -1):
+            anc = path[:k]  # the decaying ancestor system; its momentum as produced in its mother's frame:
+            p_anc = raw[anc[:-1]][anc[-1]]
+            v = Rv(Neg(p_anc), v)
+        return v
+
+    def walk(tree, res, path):
+        for i, t in enumerate(tree[1]):
+            if isinstance(t, (tuple, list)):
+                yield from walk(t, res[i], path + (i,))
+            else:
+                yield path + (i,), res[i]
+
+    pay = _pay("cascade", shape=shape)
+    n = 0
+    for path, got in walk((M, mi), out, ()):
+        n += 1
+        e = expected(path)
+        gt = [term_of(x) for x in got.arr.reshape(-1)]
+        et = [term_of(x) for x in e.arr.reshape(-1)]
+        ss.prove("ps.cascade.frames[%s,%s]" % (shape, ".".join(map(str, path))), [], T.bor(*[T.ne(x, y) for x, y in zip(gt, et)]), key="ps.cascade.frames", payload=pay, timeout=60, ackermann=True,
+                 describe="final momentum = own rest-frame momentum boosted by each ancestor system's momentum (as produced in that ancestor's mother frame), innermost first; boost kernel uninterpreted")
+    ss.note(name="ps.cascade", states=n, transitions=n)
+    if len(raw) > 1:
+        # a deliberately wrong order (outermost boost first) must be told apart
+        path = max((p for p, _ in walk((M, mi), out, ())), key=len)
+        v = raw[path[:-1]][path[-1]]
+        for k in range(1, len(path)):
+            anc = path[:k]
+            v = Rv(Neg(raw[anc[:-1]][anc[-1]]), v)
+        got = dict(walk((M, mi), out, ()))[path]
+        if len(path) > 2:
+            ss.mutant("ps.cascade.mutant_order[%s]" % shape, [], T.bor(*[T.ne(term_of(x), term_of(y)) for x, y in zip(got.arr.reshape(-1), v.arr.reshape(-1))]))
+
+
+def job_concrete(ss, n):
+    """the same kinematic clauses with the masses given as plain Python floats that are not representable in single
+    precision (5.279, 0.139, 0.494: the usual way to call the generator): energy-momentum conservation and the mass
+    shells to 1e-9, i.e. no intermediate result may pass through single precision"""
+    from tf_pwa.phasespace import PhaseSpaceGenerator, get_p
+
+    _sym_random()
+    M = 5.279
+    if n == 3:
+        # the call made for the first split of a 3-body decay: parent mass a Python float, the mass of the daughter
+        # system a tensor (symbolic here), the third mass a Python float
+        m12 = S.real("m12")
+        S.assume(m12 > 0.278)
+        S.assume(m12 < M - 0.494)
+        q = SymReal(term_of(get_p(M, tensor_of([m12]), 0.494).arr.reshape(-1)[0]))
+        F = facts()
+        q = simp(F, q)
+        lam = (M * M - (m12 + 0.494) * (m12 + 0.494)) * (M * M - (m12 - 0.494) * (m12 - 0.494))
+        ss.prove("ps.concrete.get_p[float parent, tensor daughter]", F, T.bor(far((q * q * (4 * M * M)).t, lam.t, Fraction(1, 10**9)), T.lt(q.t, T.ZERO)), key="ps.concrete.energy_sum",
+                 payload=_pay("concrete", n=3), timeout=120, describe="4 M^2 q^2 = lambda(M^2, m12^2, m3^2) to 1e-9 with the parent mass a Python float (no single-precision rounding)")
+        ss.witness("ps.concrete.reach[n=3]", F)
+        return
+    ms = [0.139, 0.494]
+    gen = PhaseSpaceGenerator(M, ms)
+    mass = gen.generate_mass(1)
+    ps = gen.generate_momentum(mass, 1)
+    _open_variates()
+    F = facts()
+    pay = _pay("concrete", n=n)
+    vals = []
+    for p in ps:
+        vals += [SymReal(term_of(e)) for e in p.arr.reshape(-1)]
+    vals = simp(F, *vals)
+    P = [vals[4 * i : 4 * i + 4] for i in range(len(ps))]
+    tol = Fraction(1, 10**9)
+    Etot = sum([p[0] for p in P[1:]], P[0][0])
+    ss.prove("ps.concrete.energy_sum[n=%d]" % n, F, far(Etot.t, T.const(M, "R"), tol), key="ps.concrete.energy_sum", payload=pay, timeout=120,
+             describe="sum of energies = parent mass to 1e-9 for Python-float masses (double precision throughout)")
+    for k, p in enumerate(P):
+        m2 = p[0] * p[0] - p[1] * p[1] - p[2] * p[2] - p[3] * p[3]
+        ss.prove("ps.concrete.on_shell[n=%d,%d]" % (n, k), F, far(m2.t, T.const(ms[k] * ms[k], "R"), tol), key="ps.concrete.on_shell", payload=pay, timeout=120)
+    ss.witness("ps.concrete.reach[n=%d]" % n, F)
 
 
 def job_step(ss):
